@@ -55,7 +55,11 @@ class VClock:
 
 def run_driver(subcmd: str, text: str, timeout: float = 600.0) -> str:
     """Pipe `text` through the compiled Lean driver and return its stdout."""
-    if not DRIVER.exists():
+    for _ in range(240):                      # a concurrent `lake build` re-links the binary
+        if DRIVER.exists():
+            break
+        _real_time.sleep(0.5)
+    else:
         raise RuntimeError(f"driver not built: {DRIVER} (run `cd lean && lake build`)")
     p = subprocess.run([str(DRIVER), subcmd], input=text, capture_output=True, text=True,
                        timeout=timeout)
